@@ -57,7 +57,15 @@ type cell struct {
 	Timed       string `json:"timed,omitempty"` // deadline | p-release (see timed.go)
 	SAtMs       int    `json:"secondary_finishes_at_ms,omitempty"`
 	SettleUs    int    `json:"settle_us"`
-	Procs       int    `json:"gomaxprocs"`
+	// configured-threshold cells (cfg.go): the plugin is built from this YAML through the real decoder + Init
+	Cfg          string `json:"plugin_config_yaml,omitempty"`
+	CfgClass     string `json:"threshold_class,omitempty"`
+	CfgSpell     string `json:"threshold_spelling,omitempty"`
+	EffUpMs      int    `json:"failover_due_ms,omitempty"` // when the threshold-driven fail-over is due (threshold_ms is the lower bound; they differ only where the statement leaves the value open)
+	Place        string `json:"placement,omitempty"`       // inside-answer | inside-fail | just-inside | outside | caller-deadline
+	PAtMs        int    `json:"primary_ends_at_ms,omitempty"`
+	CtxTimeoutMs int    `json:"caller_deadline_ms,omitempty"`
+	Procs        int    `json:"gomaxprocs"`
 	Rep         int    `json:"rep"`
 	Seed        int64  `json:"seed"`
 }
@@ -73,6 +81,9 @@ func (c cell) class() string {
 	}
 	if c.Timed != "" {
 		edge = "|timed-" + c.Timed
+	}
+	if c.Cfg != "" {
+		return fmt.Sprintf("%s|cfg-threshold %s (%s)|%s|P=%s,S=%s", sb, c.CfgSpell, c.CfgClass, c.Place, c.POut, c.SOut)
 	}
 	return fmt.Sprintf("%s|%s|P=%s,S=%s|%s|pause=%s|cancel=%d|race=%d%s", sb, c.Regime, c.POut, c.SOut, c.Order, c.Pause, c.Cancel, c.CancelRace, edge)
 }
@@ -123,11 +134,14 @@ type fbKey struct {
 
 var plugins = map[fbKey]sequence.Executable{}
 
+var testMosdns *coremain.Mosdns
+
 func buildPlugins() {
 	m := coremain.NewTestMosdnsWithPlugins(map[string]any{
 		"c20_primary":   &worker{role: roleP},
 		"c20_secondary": &worker{role: roleS},
 	})
+	testMosdns = m
 	for _, sb := range []bool{false, true} {
 		for _, ms := range []int{5000, 10, 20, 40, 1, 2, 3, timedThresholdMs} {
 			bp := coremain.NewBP(fmt.Sprintf("c20_fallback_%v_%d", sb, ms), m)
@@ -161,8 +175,12 @@ var errCause = errors.New("c20: caller gave up (cancel cause)")
 
 func newRun(c cell) *run {
 	id := caseSeq.Add(1)
+	fb := plugins[fbKey{c.Standby, c.ThresholdMs}]
+	if c.Cfg != "" {
+		fb = cfgPlugin(c)
+	}
 	r := &run{c: c, name: fmt.Sprintf("c%d.c20.test.", id), thr: time.Duration(c.ThresholdMs) * time.Millisecond,
-		fb: plugins[fbKey{c.Standby, c.ThresholdMs}], first: map[string]int{}, wake: make(chan struct{}),
+		fb: fb, first: map[string]int{}, wake: make(chan struct{}),
 		resumeCh: make(chan struct{})}
 	r.relCh[0], r.relCh[1] = make(chan struct{}), make(chan struct{})
 	r.out = [2]string{c.POut, c.SOut}
@@ -182,6 +200,9 @@ func newRun(c cell) *run {
 		r.ctx, r.cancelFn, r.cause = ctx, func() { cancel(errCause) }, errCause
 	case "timeout":
 		r.timeout = 15 * time.Millisecond
+		if c.CtxTimeoutMs > 0 {
+			r.timeout = time.Duration(c.CtxTimeoutMs) * time.Millisecond
+		}
 		r.ctxCreated = now()
 		ctx, cancel := context.WithTimeout(context.Background(), r.timeout)
 		r.ctx, r.cancelFn = ctx, cancel
@@ -196,7 +217,9 @@ func newRun(c cell) *run {
 
 func runCase(c cell) caseResult {
 	r := newRun(c)
-	if c.Timed != "" {
+	if c.Cfg != "" {
+		r.executeCfg()
+	} else if c.Timed != "" {
 		r.executeTimed()
 	} else if c.Edge != "" {
 		r.executeEdge()
@@ -343,6 +366,10 @@ func runUnit(u unit, lrn []learned, local map[string]int64) {
 	caselog.Log(u.c)
 	if u.c.Timed != "" {
 		runTimedUnit(u, local)
+		return
+	}
+	if u.c.Cfg != "" {
+		runCfgCell(u.c, local)
 		return
 	}
 	for i := 0; i < u.reps; i++ {
@@ -506,10 +533,11 @@ func baseCells() []cell {
 func main() {
 	rep = evid.New("C20", "exploration")
 	caselog = evid.OpenCaseLog()
-	rep.SetRule("cells = always_standby{on,off} x regime/order{long threshold 5 s: P first, S first, together; short threshold 10-40 ms with the primary held past it: P slow (S released first), S slow (P released first), together} x primary{answer,no answer,error(+/- stale response)} x secondary{same} x hook pause{none, primary parked at fallback.primary.signalled, parked + secondary finishes inside the window} x caller context{never ends, ends at each pending point incl. inside the pause window, cancelled together with each release, deadline expiry} x GOMAXPROCS{1,2,16}, each repeated; one case = one fallback call with scripted workers that finish only when released; non-trivial = the controller reached the scripted decisive state (all scripted starts/ends/hook events observed in order, context end realised where scripted) and a verdict was taken; distinct = cell class x GOMAXPROCS x realised event order")
+	rep.SetRule("cells = always_standby{on,off} x regime/order{long threshold 5 s: P first, S first, together; short threshold 10-40 ms with the primary held past it: P slow (S released first), S slow (P released first), together} x primary{answer,no answer,error(+/- stale response)} x secondary{same} x hook pause{none, primary parked at fallback.primary.signalled, parked + secondary finishes inside the window} x caller context{never ends, ends at each pending point incl. inside the pause window, cancelled together with each release, deadline expiry} x GOMAXPROCS{1,2,16}, each repeated; plus configured-threshold cells: the plugin built from YAML text through the real args decoder and Init with the threshold key {absent, 0, negative, 1, a few ms, below/around/above the 500 ms default, 4999, 5000, 5001, 6000, seeded values up to hours} in three spellings x always_standby x placement of the primary relative to the CONFIGURED threshold {answers inside (later than the 500 ms default where possible), fails inside, held past it, caller deadline shorter than it}; one case = one fallback call with scripted workers that finish only when released; non-trivial = the controller reached the scripted decisive state (all scripted starts/ends/hook events observed in order, context end realised where scripted) and a verdict was taken; distinct = cell class x GOMAXPROCS x realised event order")
 	rep.Assume("a Go timer cannot fire early: S.start / a returned secondary answer earlier than the threshold after call start is judged, never a duration against an upper bound")
 	rep.Assume("'primary in time' is certain by construction: it is released within milliseconds while the threshold is 5000 ms (cases that take longer than 2.5 s are reported inconclusive)")
 	rep.Assume("'the call returns' is restated as returning within 4 s of the enabling event (nominal < 1 ms, resp. the 10-40 ms threshold)")
+	rep.Assume("configured-threshold cells: an absent or 0 threshold means the documented default of 500 ms; a negative threshold is not given a meaning by the statement (nothing is judged 'too early' there); 'primary within the threshold' is demanded only when the primary's end was logged at least half its nominal margin before the configured threshold; a fail-over later than threshold + 150 ms + 5% is judged only with the machine demonstrably on time (reference timer chain and lag monitor < 30 ms) and reproduced at once")
 	rep.Assume("when the caller's context ends at the same time as a result becomes due, either the result or the context error is accepted")
 	go lagMonitor()
 	buildPlugins()
@@ -538,6 +566,14 @@ func main() {
 			u.reps = 4
 		}
 		local := map[string]int64{}
+		if c.Cell.Cfg != "" {
+			// configured-threshold cell: runCfgCell re-executes it (same keys as in the sweep)
+			runUnit(u, nil, local)
+			for k, v := range local {
+				rep.Count(k, v)
+			}
+			rep.Finish()
+		}
 		// re-execute exactly the recorded case first, then neighbours
 		res := runCase(c.Cell)
 		rep.Eval(1)
@@ -563,9 +599,15 @@ func main() {
 	procsList := []int{1, 2, 16}
 	nUnits := 0
 	passWall := map[string]float64{}
+	var cfgDone chan struct{}
 	for pi, procs := range procsList {
 		runtime.GOMAXPROCS(procs)
 		passStart := time.Now()
+		if procs == 16 {
+			// configured-threshold cells (cfg.go) sleep for up to the configured 5-6 s:
+			// they run next to this pass
+			cfgDone = startCfgPhase()
+		}
 		share := func(n int) int {
 			x := n * []int{20, 20, 60}[pi] / 100
 			if x < 1 {
@@ -643,8 +685,13 @@ func main() {
 		runUnits(units, lrn, parallel)
 		passWall[fmt.Sprintf("gomaxprocs=%d", procs)] = time.Since(passStart).Seconds()
 	}
-	rep.Extra("pass_wall_s", passWall)
 	runtime.GOMAXPROCS(16)
+	if cfgDone != nil {
+		w := time.Now()
+		<-cfgDone
+		passWall["waiting for the configured-threshold cells after the last pass"] = time.Since(w).Seconds()
+	}
+	rep.Extra("pass_wall_s", passWall)
 
 	rep.Count("units(cell x context-end variant x GOMAXPROCS)", int64(nUnits))
 	rep.Count("base_cells", int64(len(bases)))
@@ -676,6 +723,9 @@ func main() {
 		}
 		if rep.Get("timed_cases_on_time") == 0 {
 			rep.Inconclusive("no timed case could be judged: the machine was late in all %d attempts", rep.Get("timed_cases_not_judged(machine late)"))
+		}
+		if p := cfgCoverageProblem(); p != "" {
+			rep.Inconclusive("%s (machine too slow to place the primary inside the configured threshold in 3 tries?)", p)
 		}
 		if rep.Get("context_end_realised") == 0 || rep.Get("R1_secondary_starts_checked") == 0 {
 			rep.Inconclusive("monitor observed no context end / no secondary start")
